@@ -35,7 +35,7 @@ claims.update({
    note="The induction over the packet sequence (one hand-over per message for any history) is a lemma over the iteration contract, written in DESIGN.md 4.C04, not mechanised. Trusted: handler does not modify the message before returning; io.Writer contract; Parse/Pack callee contracts (discharged under C05/C06).",
    ref="DESIGN.md section 4.C04"),
  "C07": dict(
-   text="Proof of the three guarantees G1-G3: requesters (publish QoS1/2, PUBREL stage, subscribe, unsubscribe) register a fresh waiter channel under the request's own packet id before writing and return success only after a receive on that very channel; the serve loop sends an acknowledgement only to the channel looked up under (kind,id), non-blocking, and the five signaller lookups return exactly the registered channel and remove exactly that key (whole-map postcondition); SUBACK count mismatch yields ErrInvalidSubAck and closes the transport, otherwise granted QoS is copied back per filter in request order.",
+   text="Proof of the three guarantees G1-G3: requesters (publish QoS1/2, PUBREL stage, subscribe, unsubscribe) register a fresh waiter channel under the request's own packet id before writing and return success only after a receive on that very channel; the serve loop sends an acknowledgement only to the channel looked up under (kind,id), non-blocking, and the five signaller lookups return exactly the registered channel and remove exactly that key (whole-map postcondition); SUBACK count mismatch yields ErrInvalidSubAck and closes the transport, otherwise granted QoS is copied back per filter in request order. Every acknowledgement waiter a request registers is a buffered channel (capacity >= 1), so the reader's non-blocking hand-over cannot lose an acknowledgement that arrives before the requester waits.",
    note="The cross-goroutine composition (a channel is reachable only through its map entry until serve removes it) is a rely/guarantee lemma in DESIGN.md 4.C07; id uniqueness is imported from C15. Channel invariants (waiter channels carry non-nil packets and are never closed) are assumed at receives and are obligations at sends/closes. Ping and Connect waiters are under contract too.",
    ref="DESIGN.md section 4.C07"),
  "C11": dict(
@@ -58,7 +58,7 @@ claims.update({
 
 claims.update({
  "C01": dict(
-   text="Proof of the queue mechanism contracts behind 'nothing accepted is lost': pushTask appends exactly one task (whole-sequence postcondition) unless stopped; Publish/Subscribe/Unsubscribe push the task closure over the caller's arguments; RetryClient.publish/subscribe/unsubscribe either transmit (queue empty) or append a deferred closure behind the queue; a failed QoS>0 request appends its retry handle and marks the connection for closing; every interrupted base-client request returns a retry error whose handle re-issues the same request; Retry re-queues exactly continuation + not-yet-attempted entries (exact sequence equality).",
+   text="Proof of the queue mechanism contracts behind 'nothing accepted is lost': pushTask appends exactly one task (whole-sequence postcondition) unless stopped; Publish/Subscribe/Unsubscribe push the task closure over the caller's arguments; RetryClient.publish/subscribe/unsubscribe either transmit (queue empty) or append a deferred closure behind the queue; a failed QoS>0 request appends its retry handle and marks the connection for closing; every interrupted base-client request returns a retry error whose handle re-issues the same request; Retry re-queues exactly continuation + not-yet-attempted entries (exact sequence equality). pushTask wakes the task loop (non-blocking send on the task channel); Publish/Subscribe/Unsubscribe never report success when the task was refused; SetClient signals the previous client's switch channel and starts exactly one task loop.",
    note="Liveness ('eventually acknowledged'), lost-wakeup freedom of chTask and the cross-goroutine composition (invariant I1, DESIGN.md 4.C01) are not decided. The task loop, Resubscribe, Retry and the reconnect loop are under contract. Closure invariants are checked at direct calls and assumed for entries invoked from the queue (fntype retryFn).",
    ref="DESIGN.md section 4.C01"),
  "C03": dict(
@@ -70,7 +70,7 @@ claims.update({
    note="Known findings D7 (duplicate entries) and D8 (deferred unsubscribe overtaken by Resubscribe) are reported as KNOWN-FINDING; D6 was fixed. Resubscribe and the resubscribe condition of the reconnect loop are under contract. Convergence as a whole-history statement is a paper lemma.",
    ref="DESIGN.md section 4.C08"),
  "C16": dict(
-   text="Proof of the connection state machine pieces: connStateUpdate (Disconnected absorbing, callback exactly when the state changed, with the new state and Err()), SetErrorOnce (first error wins), Connect reports Active exactly once and only on an accepting CONNACK, the reader goroutine's exit sequence serve -> Close -> store error unless Disconnected -> Closed -> close(Done), Disconnect sets Disconnected before writing DISCONNECT, Done() returns connClosed which only the reader goroutine closes.",
+   text="Proof of the connection state machine pieces: connStateUpdate (Disconnected absorbing, callback exactly when the state changed, with the new state and Err()), SetErrorOnce (first error wins), Connect reports Active exactly once and only on an accepting CONNACK, the reader goroutine's exit sequence serve -> Close -> store error unless Disconnected -> Closed -> close(Done), Disconnect sets Disconnected before writing DISCONNECT, Done() returns connClosed which only the reader goroutine closes. In the reconnecting client every keep-alive goroutine captures a variable that belongs to its own loop iteration, so it can only ever touch the connection it was started for.",
    note="Lock-guarded fields are modelled as arbitrary at each acquisition (values 'at lock time' via guardVal). The keep-alive goroutine of the reconnecting client is under contract (own-client error; defect D5 found there and fixed). The relative order of Active and Closed when CONNACK and connection end race is not decided.",
    ref="DESIGN.md section 4.C16"),
  "C18": dict(
@@ -81,7 +81,7 @@ claims.update({
 
 claims.update({
  "C09": dict(
-   text="Proof of per-iteration contracts of the reconnect loop for every outcome of dial / CONNECT / connection end: exactly one dial per pass; the wait before the next dial is time.After(w) with w = base after a success and w = the carried back-off otherwise, and the carried back-off becomes min(2w, max) (inductive invariant: it never drops below min(base, max)); at most one CONNECT per dialled client, with the caller's client id and option slice, after SetClient of that client; whenever a client was dialled its transport is closed and its Done() channel has been received from before the wait starts (one live transport); the loop returns only through a select that chose ctx.Done(), the disconnected channel or a connection end with Err()==nil, every continue/stop decision is a select that also watches ctx.Done() and the disconnected channel, and c.done is closed on exit. Disconnect closes the disconnected channel first, disconnects the retry client and returns only through a select on the loop's done channel or its context.",
+   text="Proof of per-iteration contracts of the reconnect loop for every outcome of dial / CONNECT / connection end: exactly one dial per pass; the wait before the next dial is time.After(w) with w = base after a success and w = the carried back-off otherwise, and the carried back-off becomes min(2w, max) (inductive invariant: it never drops below min(base, max)); at most one CONNECT per dialled client, with the caller's client id and option slice, after SetClient of that client; whenever a client was dialled its transport is closed and its Done() channel has been received from before the wait starts (one live transport); the loop returns only through a select that chose ctx.Done(), the disconnected channel or a connection end with Err()==nil, every continue/stop decision is a select that also watches ctx.Done() and the disconnected channel, and c.done is closed on exit. Disconnect closes the disconnected channel first, disconnects the retry client and returns only through a select on the loop's done channel or its context. Each CONNECT of the loop runs under the per-attempt context produced by timeoutContext (no unbounded wait for CONNACK when a timeout is configured).",
    note="'Never dials again after Disconnect' and 'Disconnect returns' as whole-history / liveness statements are not decided: Go's select may pick the expired timer when the stop request is ready at the same instant, and termination needs Dialer/Transport calls to return. Observation (not part of C09): a dial that completes after Disconnect leaves its connection open when the loop exits. Trusted: Connect and Disconnect are called once per reconnectClient; sync.Once runs its function at most once; Dialer returns a client with a transport on success; durations are below 2^62 ns and non-negative (precondition).",
    ref="DESIGN.md section 4.C09"),
  "C13": dict(
